@@ -525,6 +525,19 @@ type Result struct {
 	Labels  []string
 }
 
+// stopWithin: Stop waits for a run in flight, which takes milliseconds here; a Stop that does
+// not come back is a rerunner that holds its run lock for good.
+func stopWithin(rr *reactive.Rerunner, d time.Duration) bool {
+	done := make(chan struct{})
+	go func() { rr.Stop(); close(done) }()
+	select {
+	case <-done:
+		return true
+	case <-time.After(d):
+		return false
+	}
+}
+
 // Run executes the case and checks the C04 and C08 oracles. checkCleanup enables the
 // resource-release oracle (C08 b).
 func Run(c Case, checkCleanup bool) (Result, string, error) {
@@ -590,7 +603,9 @@ func Run(c Case, checkCleanup bool) (Result, string, error) {
 			if atomic.LoadInt32(&rn.entries) != atomic.LoadInt32(&rn.exits) {
 				atomic.AddInt32(&m.hits.StopDuringRun, 1)
 			}
-			rn.rr.Stop()
+			if !stopWithin(rn.rr, 10*time.Second) {
+				return res, "wedged", fmt.Errorf("Stop of rerunner %d does not return within 10s although no run takes more than milliseconds: the rerunner is wedged and will never run again", rn.idx)
+			}
 			e, x := atomic.LoadInt32(&rn.entries), atomic.LoadInt32(&rn.exits)
 			rn.mu.Lock()
 			if !rn.stopped {
@@ -769,7 +784,9 @@ func Run(c Case, checkCleanup bool) (Result, string, error) {
 		return res, "straggler-stuck", fmt.Errorf("a goroutine that called reactive.Cache with the context of a finished run is still blocked 5s later")
 	}
 	for _, rn := range m.runners {
-		rn.rr.Stop()
+		if !stopWithin(rn.rr, 10*time.Second) {
+			return res, "wedged", fmt.Errorf("Stop of rerunner %d does not return within 10s although no run takes more than milliseconds: the rerunner is wedged and will never run again", rn.idx)
+		}
 		rn.mu.Lock()
 		if !rn.stopped {
 			rn.stopped = true
